@@ -5,7 +5,8 @@ M : MC_Evo - the generation loop over a heap of circuit objects (in-place mutati
     stores references instead of copies violates them (kept as documentation, not run here).
 J : REAL solver runs (evolutionary / hybrid, stabilizer / density-matrix compiler, selection and adaptive probabilities
     on/off, hall-of-fame sizes) recorded per generation by wrapping update_logs; every hall-of-fame circuit is re-scored
-    by a fresh compiler and metric.  Trace_Evo.tla: HofSorted, HofHonest, HofPrivate, BestMonotone, HofFromKnown,
+    by a fresh compiler and metric.  Trace_Evo.tla: HofSorted, HofHonest, BestMonotone, HofFromKnown (object sharing
+    between hall of fame and population is reported as information only),
     ResultIsBest, LogsMonotone, ReproducibleInProcess, ReproducibleAcrossProcesses (fresh interpreters, other hash seeds).
 """
 from __future__ import annotations
